@@ -415,13 +415,16 @@ def _vf(name, family, tier, seed, module="MCGenVec", tpl="Gen_Vec.cfg.tpl"):
 def c07(tier, seed, work):
     W = dict(module="MCGenWireVec")
     return vec_check("C07", tier, seed, work, [_vf("c07-rsp", "rsp", tier, seed), _vf("c07-message", "message", tier, seed, **W),
-                                               _vf("c07-wrapper", "wrapper", tier, seed, **W), _vf("c07-setup", "setup", tier, seed, **W)],
+                                               _vf("c07-wrapper", "wrapper", tier, seed, **W), _vf("c07-setup", "setup", tier, seed, **W),
+                                               _vf("c07-fsr", "fsr", tier, seed, module="MCGenPrimVec")],
                      "Every response table of LayerTables.tla: each field over its whole domain around two seeded base records, optional "
                      "tails, and every body length below the minimum (must be rejected).")
 
 
 def c06(tier, seed, work):
-    return vec_check("C06", tier, seed, work, [_vf("c06-req", "req", tier, seed)],
+    W = dict(module="MCGenWireVec")
+    return vec_check("C06", tier, seed, work, [_vf("c06-req", "req", tier, seed), _vf("c06-message", "message", tier, seed, **W),
+                                               _vf("c06-setup", "setup", tier, seed, **W)],
                      "Every request table of LayerTables.tla serialised by the library and compared byte-for-byte with Layout!Encode: each "
                      "field over its whole domain; Get Session Info in its three forms; Close Session by ID and by handle.")
 
@@ -456,4 +459,17 @@ def c08(tier, seed, work):
                      "round trip in both directions; AuthCodes are HMAC terms evaluated with the standard library.")
 
 
-CHECKS.update({"C05": c05, "C06": c06, "C07": c07, "C08": c08, "C17": c17})
+def c20(tier, seed, work):
+    P = dict(module="MCGenPrimVec")
+    return vec_check("C20", tier, seed, work, [_vf("c20-prims", "prims", tier, seed, **P), _vf("c20-checksum", "checksum", tier, seed, **P),
+                                               _vf("c20-fsrtwos", "fsrtwos", tier, seed, **P), _vf("c20-fsr", "fsr", tier, seed, **P)],
+                     "Prims.tla defines each conversion mathematically (TLC checks its internal theorems); complete tables are evaluated and "
+                     "reached through the exported API: 3 analog parsers x 256; 128 entity instances; BCD over all 256 bytes (Get Device ID) and "
+                     "the reversed-nibble SDR version; two's complement: all 1 024 values of M, B and accuracy and all 256 exponent pairs "
+                     "(Full Sensor Record); checksums over header-byte pairs and data bytes (Message); BCD-plus every nibble at every length "
+                     "0..31; packed 6-bit every code at (sampled in quick, all in thorough) every position for lengths 0..31; Latin-1 all 256 "
+                     "bytes and lengths; rolling-average byte -> duration for all 256 bytes, duration -> byte at every unit boundary +-2 s and "
+                     "a stride (not every second up to 64 days: stated limit).")
+
+
+CHECKS.update({"C05": c05, "C06": c06, "C07": c07, "C08": c08, "C17": c17, "C20": c20})
